@@ -44,8 +44,18 @@ func c26Eligible(name string) bool {
 }
 
 func propC26(e *Env) {
-	dir := filepath.Join(e.Dir, "progs")
+	// the directory's own name may contain characters that mean something to a glob; a sibling directory
+	// that such a "pattern" would match holds a program that must never run
+	dirName := []string{"progs", "progs", "progs[1]", "rules-[a-z]", "what?"}[e.Choose("gen", 5)]
+	dir := filepath.Join(e.Dir, dirName)
 	os.Mkdir(dir, 0o755)
+	if dirName != "progs" {
+		e.Probe("directory_name_with_glob_characters")
+		for _, sib := range []string{"progs1", "rules-x", "whatx"} {
+			os.Mkdir(filepath.Join(e.Dir, sib), 0o755)
+			os.WriteFile(filepath.Join(e.Dir, sib, "stranger.mtail"), []byte(c26Source("stranger.mtail", 1, 0)), 0o644)
+		}
+	}
 	e.S.StmtPreempt = e.Choose("knob", 3) == 1
 	names := []string{"a.mtail", "b.mtail", "c.mtail", ".x.mtail", "notes.txt", "a.mtail.bak", "d.mtail.txt", "a.v2.mtail"}
 	files := map[string]*c26File{}   // what is on disk (regular files directly in dir)
@@ -103,7 +113,7 @@ func propC26(e *Env) {
 		e.Probe("directory_named_like_program")
 	}
 	base := map[string]progCounters{}
-	for _, n := range append(names, "inner.mtail", "d.mtail", "e.mtail") {
+	for _, n := range append(names, "inner.mtail", "d.mtail", "e.mtail", "stranger.mtail") {
 		base[n] = snapProg(n)
 	}
 	want := map[string]progCounters{}
@@ -205,7 +215,7 @@ func propC26(e *Env) {
 			case !exp[k] && moved != 0:
 				cls := "stale-version"
 				name := k[strings.Index(k, "{")+1 : strings.Index(k, "}")]
-				if !c26Eligible(name) || name == "inner.mtail" || name == "e.mtail" || name == "d.mtail" {
+				if !c26Eligible(name) || name == "inner.mtail" || name == "e.mtail" || name == "d.mtail" || name == "stranger.mtail" {
 					cls = "ineligible-loaded"
 				} else if _, onDisk := files[name]; !onDisk {
 					cls = "removed-still-running"
